@@ -162,7 +162,7 @@ CHECKS["C13"] = dict(category="model_checking",
 # what the seeded-change rounds added to each check's inputs (DESIGN.md 12.5 / 12.6)
 _BISYNC = ("link universe (one version materialised as a symbolic link), long histories with links and scripted 'file becomes a directory' "
            "histories, pair scenarios (adversarially close names, relative spelling of a missing root, symlinked root re-pointed, "
-           "BLAKE3 tie between a file and a link with the roots swapped), archive faults incl. missing version / pair members, "
+           "BLAKE3 tie between a file and a link with the roots swapped), two versions whose digests share their first 48 bits, archive faults incl. missing version / pair members, "
            "malformed entries a valid document followed by trailing bytes, a stale archive of the same roots in the other order, and a dry run on every damaged archive")
 _ONEWAY = ("file/directory clashes both ways, destination-only directories with excluded files, leftover staging files, a missing "
            "destination root, a name that is not UTF-8, mtimes before 1970 and in the future, symlinked source files, directed "
@@ -178,9 +178,9 @@ ADDENDA = {
     "C01": "signature and delta recomputed over short reads (sizes that are no multiple of the block size), both engines",
     "C05": "bases ending in zero bytes cut inside the run; an uncorrupted pair with one literal of 3 MiB through both engines and the CLI",
     "C08": "a stale, longer file at the archive's staging name; the recorded state after the completed re-run is judged too; all 810 (A, B, archive) instances over two paths x two contents in thorough (a seeded 60 in quick), every kill point each",
-    "C09": "a file in flight that replaces one of the same size; a 200 000-byte file (between one pipe write and one transfer chunk) in every direction; conformance tolerant of one unlogged call per thread with several jobs",
+    "C09": "a file in flight that replaces one of the same size; a source that shrinks between the killed run and the re-run; a 200 000-byte file (between one pipe write and one transfer chunk) in every direction; conformance tolerant of one unlogged call per thread with several jobs",
     "C11": "names that a cleaning step would turn into '..' or an absolute path (NUL, blanks, line ends, per-cent escapes, full-width dots); very long refused paths (plain, control characters, backslashes, 2/3/4-byte characters at every alignment), names that contain backslashes and dots; 'refused' is recognised by effect, not by the reply's wording",
-    "C12": "frames longer than their CBOR item (zero filler, a complete request as filler), such frames closed inside the filler, a Put under a path that is a file (request fails, session goes on), refused paths of multi-byte characters, staging files of dead servers in the served tree, a Put longer than its input; time-outs are re-checked with a longer limit before they count",
+    "C12": "frames longer than their CBOR item (zero filler, a complete request as filler), such frames closed inside the filler, a Put under a path that is a file (request fails, session goes on), a Hello naming another version, an empty Put with a wrong hash, refused paths of multi-byte characters, staging files of dead servers in the served tree, a Put longer than its input; time-outs are re-checked with a longer limit before they count",
     "C13": "a name that sorts before a directory's entries as a string and after them as a path, names with a backslash, a non-UTF-8 name (unsendable trees), a file named like another name's directory (blocked runs), a hub root containing colons, scripted clash histories and scripted stale-listing windows with a file/directory clash (known finding H26 for the clashing file only); run-failed labels are reports, not alarms; the check refuses to pass when no race could be produced",
     "C16": "a zero block and a block tuned to byte sum m*65521, each reached by sliding; multi-MiB sources whose matches all sit off the block grid; first matches just before and just after a normalisation point; a 24 MiB run of new data before a known tail (thorough); engine / signature block-size mismatch at the library level",
     "C17": "5003 consecutive slides at windows 65536 / 65535 / 56000 / 32768; marathon runs of 26-70 million consecutive slides judged at checkpoints by RollingTrace!New",
